@@ -249,8 +249,12 @@ class DiameterAssociation(object):
 
             MESSAGE_LENGTH = len(msg.dump())
 
-            if MESSAGE_LENGTH > SEND_BUFFER_MAXIMUM_SIZE - len(stream):
-                self._send_messages.put(msg)
+            if stream and \
+                    MESSAGE_LENGTH > SEND_BUFFER_MAXIMUM_SIZE - len(stream):
+                #: It does not fit this flush anymore: back to the head of
+                #: the queue, ahead of everything submitted after it. A
+                #: message larger than the window is sent on its own.
+                self._send_messages.queue.appendleft(msg)
                 break
 
             if isinstance(msg, DiameterRequest):
